@@ -160,6 +160,19 @@ Fixpoint lldp_walk (fuel : nat) (p : slice) (pos : nat) : res value :=
       lldp_walk f p (pos + N.to_nat (tlv_l x) + 2)
   end.
 Definition LLDP_String : getter := fun p => lldp_walk (S (len p)) p 0.
+(* GetPDU(pduType): pos := 0; for { t,l,v,err := getTLV(pos); if err != nil { return nil }
+                                     if t == pduType || t == 0 { return v }; pos = pos + l + 2 }
+   the one TLV accessor that takes an argument (not in the zero-argument table; case kind "ga") *)
+Fixpoint lldp_get_pdu (fuel : nat) (p : slice) (ty : N) (pos : nat) : res value :=
+  match fuel with
+  | O => Fuel
+  | S f =>
+      x <- lldp_getTLV p pos ;;
+      if tlv_err x then Ok VNil else
+      if (tlv_t x =? ty) || (tlv_t x =? 0) then Ok (tlv_value x) else
+      lldp_get_pdu f p ty (pos + N.to_nat (tlv_l x) + 2)
+  end.
+Definition LLDP_GetPDU (ty : N) : getter := fun p => lldp_get_pdu (S (len p)) p ty 0.
 Definition LLDP_getters : gtable :=
   [("ChassisID", LLDP_ChassisID); ("PortID", LLDP_PortID); ("String", LLDP_String)].
 
